@@ -301,6 +301,21 @@ async fn main() {
             "C13" => {
                 // responses as separate events. Corpus: three parties, both FOLLOWERS supply constants, the response to the leader's second run request is the
                 // slowest event of all (both followers' constants requests reach the leader before it); then one in three seeded cases with all responses gated
+                // corpus: a follower's constants reach ANOTHER follower before that one has been told to run (it is still Validated and must take them)
+                if case == 2 || case == 3 {
+                    let (n2, leader2) = (3usize, case - 1); let other = 3 - leader2; let outs2 = vec![true; 3];     // party 0 supplies K; leader 1 or 2; `other` is the second follower
+                    *HOLD.lock().unwrap() = Some(("run", leader2, other)); let mut released = false;
+                    let o = scenario(n2, leader2, &outs2, true, &vec![P3C; n2], &vec![leader2; n2], 1, &mut r, None, move |_step, idle| { if !released && idle >= 4 { released = true; *HOLD.lock().unwrap() = None; } None }).await; execs += 1;
+                    *HOLD.lock().unwrap() = None; correspond(&mut m, &o, None, &mut disagreements, &mut steps);
+                    *dist.entry("order:consts-before-run-at-second-follower".into()).or_default() += 1; distinct.insert(format!("consts-before-run {leader2}"));
+                    let want = expected_prog(n2, P3C); let mut bad = vec![];
+                    for p in 0..n2 { let got: Vec<&String> = o.outputs.iter().filter(|(q, _)| *q == p).map(|(_, s)| s).collect(); if got != vec![&want] { bad.push(format!("party {p} destination got {got:?}, want one {want}")); } }
+                    if o.sched.iter().any(|x| x != "Ok") { bad.push(format!("schedule calls: {:?}", o.sched)); }
+                    if o.finished.iter().any(|f| !f) { bad.push(format!("state machines not stopped: {:?}", o.finished)); }
+                    if o.permits.iter().any(|p| *p != 1) { bad.push(format!("permits at the end: {:?}", o.permits)); }
+                    if !bad.is_empty() { failures.push(json!({"witness": "C13:consts-before-run", "failure": bad, "case": json!({"n": n2, "leader": leader2, "held": format!("run {leader2}->{other}"), "log": o.log})})); }
+                    continue;
+                }
                 if case < 2 || case % 3 == 2 {
                     let (n2, leader2, prog2) = if case < 2 { (3usize, 1usize, P3C2) } else { (n, leader, prog) }; let outs2 = if case < 2 { vec![true; 3] } else { outs.clone() }; let consts2 = if case < 2 { true } else { consts };
                     REPLY_GATES.store(true, Ordering::SeqCst); let mut released = false;
